@@ -23,6 +23,7 @@ def main():
     env.setup(rp["engine"])
     from sim import checks_registry as R
     plan = rp["plan"]
+    R.worker_init(plan["check"])
     try:
         rec = R.execute(plan["check"], plan)
     except Exception as e:
